@@ -72,7 +72,7 @@ fn coupled_region(length: usize, loops: usize) -> (coupled: Vec<Vec<usize>>)
             layer < length, coupling@.len() == i,
             forall|k: int| 0 <= k < i ==> (#[trigger] coupling@[k]) == layer + k * length,
     //@end
-    //@before /coupling\.push\(layer \+ i \* length\);/
+    //@before /coupling\.push\(/
                 proof {
                     assert(i * length <= (loops - 1) * length) by (nonlinear_arith) requires i <= loops - 1, length >= 0;
                     assert((loops - 1) * length + length == length * loops) by (nonlinear_arith);
